@@ -3,14 +3,14 @@
 (* C16 as a requirement over abstract strings.  A string is a sequence of  *)
 (* atoms with a byte width: "a" (1 byte ASCII), "e2" "e3" "e4" (one rune of *)
 (* 2 / 3 / 4 bytes) and the three characters the formats are sensitive to   *)
-(* ("eq" =, "semi" ;, "colon" :).  A test string is k ASCII bytes followed  *)
+(* ("eq" =, "semi" ;, "colon" :) or that a careless implementation is ("pct" %).  A test string is k ASCII bytes followed  *)
 (* by up to two atoms, with k chosen so that the 32 byte limit falls at     *)
 (* every offset of every rune width.  TLC enumerates the configuration      *)
 (* table (Rows); the monitor pass (MonText.tla) evaluates Announced / Parsed *)
 (* / Qr on what the real code produced for each row.                         *)
 (***************************************************************************)
 EXTENDS Naturals, Sequences, FiniteSets, TLC, Json
-Atoms == {"a", "e2", "e3", "e4", "eq", "semi", "colon"}
+Atoms == {"a", "e2", "e3", "e4", "eq", "semi", "colon", "pct"}    \* pct: '%', harmless - unless a text is used as a format string
 Width(x) == CASE x = "e2" -> 2 [] x = "e3" -> 3 [] x = "e4" -> 4 [] OTHER -> 1
 RECURSIVE ByteLen(_)
 ByteLen(s) == IF s = <<>> THEN 0 ELSE Width(Head(s)) + ByteLen(Tail(s))
